@@ -1,3 +1,3 @@
 import SupervisorModel.Basic.DriverKit
 import SupervisorModel.Model.Auth
-def main : IO Unit := Sv.driverMain [("auth", Sv.Auth.runCase)]
+def main : IO Unit := Sv.driverMain [("auth", Sv.Auth.runCase), ("authconn", Sv.Auth.runConn)]
